@@ -40,6 +40,11 @@ let handle (line : string) : string =
   | ["senarr"; html; hexes] ->
       let xs = List.map bytes_of_hex (List.tl (String.split_on_char ',' hexes)) in
       string_of_bytes (hexs (sen_array (html = "1") xs))
+  | ["senobj"; html; hexes] ->
+      let rec pairs l = match l with k :: v :: r -> (bytes_of_hex k, bytes_of_hex v) :: pairs r | _ -> [] in
+      string_of_bytes (hexs (sen_object (html = "1") (pairs (List.tl (String.split_on_char ',' hexes)))))
+  | ["senreadobj"; hex] ->
+      string_of_bytes (show_read_object (bytes_of_hex hex))
   | ["senreadarr"; hex] ->
       string_of_bytes (show_read_array (bytes_of_hex hex))
   | ["senread"; hex] ->
